@@ -1988,4 +1988,80 @@ theorem softwareOut_prefix (sw ver : List Char) : ∃ t, softwareOut sw ver = sw
   · rw [if_neg h]
     exact ⟨(if sw.length > 0 then ", ".toList else []) ++ "Pylake v".toList ++ ver, by simp only [List.append_assoc]⟩
 
+/-! ## Part X — alignment keys of `for_export` -/
+
+
+theorem renameKey_ne_c0 (k : List Char) : renameKey k ≠ c0Key := by
+  unfold renameKey
+  split_ifs with h0 h1 h2
+  · decide
+  · decide
+  · decide
+  · exact h0
+
+theorem appliedKey_a0 : appliedKey a0Key = true := by decide
+theorem appliedKey_pylake : appliedKey pylakeKey = false := by decide
+theorem pylake_ne_c0 : pylakeKey ≠ c0Key := by decide
+
+theorem contains_c0_addPylake (ks : List (List Char)) : (addPylake ks).contains c0Key = ks.contains c0Key := by
+  unfold addPylake
+  split_ifs
+  · rfl
+  · rw [List.contains_eq_mem, List.contains_eq_mem]
+    simp only [List.mem_append, List.mem_singleton]
+    have : c0Key ≠ pylakeKey := fun h => pylake_ne_c0 h.symm
+    simp [this]
+
+theorem any_applied_addPylake (ks : List (List Char)) : (addPylake ks).any appliedKey = ks.any appliedKey := by
+  unfold addPylake
+  split_ifs
+  · rfl
+  · rw [List.any_append]; simp [appliedKey_pylake]
+
+theorem status_addPylake (rgb : Bool) (ks : List (List Char)) : alignStatus rgb (addPylake ks) = alignStatus rgb ks := by
+  unfold alignStatus
+  rw [contains_c0_addPylake, any_applied_addPylake]
+
+theorem addPylake_contains (ks : List (List Char)) : (addPylake ks).contains pylakeKey = true := by
+  unfold addPylake
+  by_cases h : ks.contains pylakeKey = true
+  · rw [if_pos h]; exact h
+  · rw [if_neg h, List.contains_eq_mem]; simp
+
+theorem addPylake_idem (ks : List (List Char)) : addPylake (addPylake ks) = addPylake ks := by
+  have h := addPylake_contains ks
+  generalize addPylake ks = k at h ⊢
+  unfold addPylake
+  rw [if_pos h]
+
+theorem status_renamed (keys : List (List Char)) (h : keys.contains c0Key = true) :
+    alignStatus true (keys.map renameKey) = .applied := by
+  unfold alignStatus
+  have h1 : (keys.map renameKey).contains c0Key = false := by
+    rw [List.contains_eq_mem, decide_eq_false_iff_not, List.mem_map]
+    rintro ⟨k, _, hk⟩
+    exact renameKey_ne_c0 k hk
+  have h2 : (keys.map renameKey).any appliedKey = true := by
+    rw [List.any_eq_true]
+    refine ⟨a0Key, ?_, appliedKey_a0⟩
+    rw [List.mem_map]
+    have hm : c0Key ∈ keys := by
+      rw [List.contains_eq_mem] at h; exact of_decide_eq_true h
+    exact ⟨c0Key, hm, by unfold renameKey; rw [if_pos rfl]⟩
+  rw [h1, h2]
+  rfl
+
+theorem ready_iff (rgb : Bool) (keys : List (List Char)) :
+    alignStatus rgb keys = .ready ↔ rgb = true ∧ keys.contains c0Key = true := by
+  unfold alignStatus
+  cases rgb
+  · simp
+  · simp only [Bool.not_true, Bool.false_eq_true, if_false]
+    by_cases h : keys.contains c0Key = true
+    · rw [if_pos h]; exact ⟨fun _ => ⟨trivial, h⟩, fun _ => rfl⟩
+    · rw [if_neg h]
+      constructor
+      · intro h'; split_ifs at h'
+      · intro h'; exact absurd h'.2 h
+
 end Verif.C18
